@@ -408,9 +408,23 @@ def run(repo: Repo, ctx) -> None:
                    sample='append precedes the break test')
 
     reg = repo.func(f'{MOD}._register_type_id')
-    txt = norm(reg.node)
-    ok = 'if type_id not in ctx.uuid_to_pos' in txt and \
-        'ctx.uuid_to_pos[type_id] = len(ctx.uuid_to_pos)' in txt
+    from .. import shapes as SH
+    st = SH.subscript_stores(reg.node, '.uuid_to_pos')
+    if not st:
+        raise AnalysisError('C14.R4: _register_type_id no longer stores '
+                            'into uuid_to_pos')
+    # the stored position is the current size of the table, and an id that
+    # is already present keeps its position
+    ok = all(norm(a.value) == f'len({norm(a.targets[0].value)})'
+             for a in st)
+    for a in st:
+        key = norm(a.targets[0].slice)
+        guard = [n for n in ast.walk(reg.node) if isinstance(n, ast.If)
+                 and any(x is a for b in n.body for x in ast.walk(b))
+                 and norm(n.test) in (
+                     f'{key} not in {norm(a.targets[0].value)}',
+                     f'({key} not in {norm(a.targets[0].value)})')]
+        ok = ok and bool(guard)
     ctx.ob('C14.R4', '_register_type_id:position', ok,
            'a descriptor\'s position is not its index in emission order '
            '(type references are positions)', reg.loc,
